@@ -291,7 +291,7 @@ def ct_approx(ref, re_b, bl, bt):
     """Cheng's approximate transition split as coded (beta = 5), regime bounds
     given separately; labelling only"""
     de, deb, s = ref['de'], ref['deb'], ref['s']
-    intf = (math.log10(re_b) - math.log10(bl)) / (math.log10(bt) - math.log10(bl))
+    intf = float((np.log10(re_b) - np.log10(bl)) / (np.log10(bt) - np.log10(bl)))
     if not 0.0 <= intf <= 1.0:
         return None
     m = M_EXP['turbulent']
@@ -364,14 +364,28 @@ def _same(a, b):
     return a is not None and b is not None and float(np.max(np.abs(a - b))) < 1e-9
 
 
-def ct_classify(ref, ref_ff, re_b, x_code, ktot):
+def ct_classify(ref, ref_ff, re_b, x_code, ktot, fallback_seen=False):
     """label (never decide) a split that is not the equal-gradient split:
     approx-fallback  : it is the approximate (beta = 5) formula's value
     foreign-friction : it is what iteration / approximation give with the
                        regime bounds / Cf_i of the FRICTION correlation
     early-stop       : it is what the iteration returns by its own stop rule"""
-    if ktot == 0.0 and _same(ct_approx(ref, re_b, ref['bl'], ref['bt']), x_code):
-        return 'approx-fallback'
+    # fallback_seen: the real _calc_transition_flowsplit_APPROX was observed to
+    # run for this level with the split correlation's own bounds (its value is
+    # ill-conditioned at Re_bL -- intf^(1/3) of a round-off sized intf -- so
+    # matching values alone is not reliable there)
+    def dist(x):
+        return float('inf') if x is None else float(np.max(np.abs(x - x_code)))
+    if ktot == 0.0:
+        own = ct_approx(ref, re_b, ref['bl'], ref['bt'])
+        if _same(own, x_code):
+            return 'approx-fallback'
+        if fallback_seen:
+            if ref_ff is None:
+                return 'approx-fallback'
+            d_for = min(dist(ct_approx(ref, re_b, ref_ff['bl'], ref_ff['bt'])),
+                        dist(ct_approx(ref_ff, re_b, ref_ff['bl'], ref_ff['bt'])))
+            return 'approx-fallback' if dist(own) <= d_for else 'foreign-friction'
     for rule in ('all', 'x2'):
         if _same(ct_emulate(ref, re_b, ktot, rule), x_code):
             return 'early-stop'
@@ -394,7 +408,7 @@ def spread(g):
 def run_case(c):
     import dassh
     from dassh import region_rodded
-    from dassh.correlations import friction_ctd
+    from dassh.correlations import friction_ctd, flowsplit_ctd
     r = new_result()
     V = r['violations']
     n = c['rings']
@@ -405,7 +419,7 @@ def run_case(c):
                               'ff', 'fs', 'mix')}
     if c.get('probe'):
         base['probe'] = c['probe']
-    ex = {'accept': {}, 'levels': {}, 'dpdz': {}, 'bundle_eq': 0, 'passed_by_x_distance': 0,
+    ex = {'accept': {}, 'levels': {}, 'dpdz': {}, 'bundle_eq': 0, 'passed_by_x_distance': 0, 'approx_fallback_levels': 0,
           'exact_hits': 0, 'exact_miss': 0, 'construct_rejected': {}}
     r['extra'] = ex
 
@@ -514,14 +528,25 @@ def run_case(c):
             cnt(ex['levels'], 'crash-clone')
             continue
         r['transitions'] += 2
+        seen = []
+        orig_approx = flowsplit_ctd._calc_transition_flowsplit_APPROX
+
+        def _spy(*a, **k):
+            seen.append(1)
+            return orig_approx(*a, **k)
+        flowsplit_ctd._calc_transition_flowsplit_APPROX = _spy     # observation only
         try:
             reg._init_static_correlated_params(T_EVAL)
         except BaseException as e:
+            flowsplit_ctd._calc_transition_flowsplit_APPROX = orig_approx
             bad('crash-static', lab, info,
                 '_init_static_correlated_params raised %s: %s'
                 % (type(e).__name__, str(e)[:160]), site=site_of(e))
             cnt(ex['levels'], 'crash-static')
             continue
+        flowsplit_ctd._calc_transition_flowsplit_APPROX = orig_approx
+        if seen:
+            cnt(ex, 'approx_fallback_levels')
         r['transitions'] += 1
         P = reg.coolant_int_params
         if float(P['Re']) != re_pred:
@@ -621,7 +646,7 @@ def run_case(c):
                     elif not np.all(np.isfinite(g)):
                         kind, why = 'dpdz-not-equal', 'non-finite gradient'
                     else:
-                        lab_ = ct_classify(ref, ref_ff, re_pred, X, ktot)
+                        lab_ = ct_classify(ref, ref_ff, re_pred, X, ktot, bool(seen))
                         kind = 'dpdz-not-equal' + ('' if lab_ == 'other' else '-' + lab_)
                         why = {'foreign-friction': 'split iterated with the regime bounds / Cf_i of the '
                                                    'friction correlation',
